@@ -113,3 +113,34 @@ Proof.
   { induction l as [|[b' p'|] l IHl]; cbn; intros Hl; [reflexivity | rewrite IHl by exact Hl; reflexivity | discriminate]. }
   rewrite (G reads1 E). rewrite flat_map_app. apply in_or_app. right. cbn [flat_map]. rewrite H. left. reflexivity.
 Qed.
+
+(** * exactly once, as a count: the number of handler invocations equals the number of datagrams read
+    before the first read error that decode (DHCPv4: and come from a UDP peer) *)
+Lemma flat_map_count {A B} (f : A -> list B) (g : A -> bool) :
+  (forall x, length (f x) = if g x then 1 else 0) -> forall l, length (flat_map f l) = length (filter g l).
+Proof.
+  intros H. induction l as [|x l IH]; [reflexivity|]. cbn [flat_map filter]. rewrite app_length, H, IH.
+  destruct (g x); reflexivity.
+Qed.
+
+Definition dispatchable4 (bp : bytes * peer) : bool :=
+  match dec4 (firstn read_buf_size (fst bp)), snd bp with Ok _, PeerUDP _ _ => true | _, _ => false end.
+Definition dispatchable6 (bp : bytes * peer) : bool :=
+  match dec_msg (firstn read_buf_size (fst bp)) with Ok _ => true | _ => false end.
+
+Theorem serve4_count : forall reads,
+  length (fst (serve4 reads [])) = length (filter dispatchable4 (before_error reads)).
+Proof.
+  intros reads. rewrite (proj1 (serve4_spec reads [])). cbn [app]. apply flat_map_count.
+  intros [b p]. unfold inv4_of, dispatchable4. cbn [fst snd].
+  destruct (dec4 (firstn read_buf_size b)) as [m| | |]; try reflexivity.
+  destruct p as [ip port|]; [destruct (rewrite_peer ip port); reflexivity | reflexivity].
+Qed.
+
+Theorem serve6_count : forall reads,
+  length (fst (serve6 reads [])) = length (filter dispatchable6 (before_error reads)).
+Proof.
+  intros reads. rewrite (proj1 (serve6_spec reads [])). cbn [app]. apply flat_map_count.
+  intros [b p]. unfold inv6_of, dispatchable6. cbn [fst snd].
+  destruct (dec_msg (firstn read_buf_size b)) as [m| | |]; reflexivity.
+Qed.
